@@ -32,13 +32,13 @@ THEOREMS = [
     "PV.C11.unparse_slot_levels",
     "PV.C11.prec_table_ok",
     "PV.C11.prec_table_exact",
-    "PV.C11.dict_unpack_defect",
+    "PV.C11.dict_unpack_regression",
     "PV.C11.parse_unparse_partial",
     "PV.C11.parse_unparse_partial_at",
     "PV.C11.inFrag_wf",
     "PV.C11.unparse_fixpoint",
     "PV.C11.parse_unparse_fails",
-    "PV.C11.dict_unpack_witness",
+    "PV.C11.dict_unpack_roundtrip",
     "PV.C11.float_near_one_roundtrip",
     "PV.C11.fstring_witness",
 ]
@@ -63,28 +63,28 @@ TRUSTED = [
 PARTIAL = [
     "parse_unparse_partial covers InFragment (lean/PV/C11/Fragment.lean): Name; every constant (numbers, str, bytes, "
     "None/True/False/Ellipsis); Attribute; Subscript with one plain index; Call with positional arguments; List, "
-    "Tuple, Set and key:value Dict displays; Await, Yield, YieldFrom; BoolOp, UnaryOp, BinOp (all 13 operators incl. "
-    "right-associative **), Compare, IfExp — nested arbitrarily, of any size, with every parenthesisation the unparser "
-    "produces.  The full statement parse_unparse_full over every WF expression additionally has: lambda, "
-    "comprehensions and generator expressions, `**` entries in dict displays, keyword / starred / `**` call arguments, "
+    "Tuple, Set and Dict displays (key:value and **value entries); Await, Yield, YieldFrom; BoolOp, UnaryOp, BinOp "
+    "(all 13 operators incl. right-associative **), Compare, IfExp — nested arbitrarily, of any size, with every "
+    "parenthesisation the unparser produces.  The full statement parse_unparse_full over every WF expression "
+    "additionally has: lambda, comprehensions and generator expressions, keyword / starred / `**` call arguments, "
     "slices and tuple indices, Starred, NamedExpr, f-strings; it is stated, not proved — those node kinds are covered "
-    "by correspondence and by prec_table_ok / prec_table_exact / unparse_shape (all slots, all kinds, every expression)",
+    "by correspondence and by prec_table_ok / prec_table_exact / unparse_shape / unparse_slot_levels (all slots, all "
+    "kinds, every expression)",
     "the theorem is about tokens; text-level facts (spacing, literal spelling, re-lexing) are correspondence only "
     "(constants: C16 / C17 theorems)",
     "fuel: the theorem says every sufficiently large fuel works (existential bound), not the driver's concrete "
     "fuelFor; the driver's bound is exercised by correspondence",
-    "parse_unparse_full is false for the unchanged code (parse_unparse_fails): dict `**` operands below `|`, "
-    "f-strings whose body needs escapes inside a field, u-prefixed pieces of f-strings (the float "
-    "0.9999999999999999 was a further one until fix 5be0365 in /repo)",
+    "parse_unparse_full is false for the code as it is (parse_unparse_fails, witness fstring_witness): f-strings whose "
+    "body needs escapes inside a replacement field; u-prefixed pieces of f-strings lose their kind.  Fixed in /repo "
+    "and now regression theorems: dict `**` operands below `|` (dc8e40d), the float 0.9999999999999999 (5be0365)",
 ]
 READY = True
 TECHNIQUE = ("Lean 4 theorems over a hand-written model of the unparser and a reference parser + differential "
              "correspondence of both with the real crates + behaviourally extracted parenthesisation table")
 LEVEL_TEXT = ("Machine-checked Lean 4: (1) for every (parent slot, child kind) pair the unparser model parenthesises "
-              "whenever the grammar cannot derive the child bare, except the six listed dict-`**` pairs, which are "
-              "proved to be defects with parse witnesses; (2) for every expression the model's parenthesisation is "
+              "whenever the grammar cannot derive the child bare — all 1831 admissible pairs, no exception; (2) for every expression the model's parenthesisation is "
               "exactly that table; (3) for every expression built from names, constants, attribute / index / call "
-              "trailers, list / tuple / set / dict displays, await / yield and the boolean, unary, binary, comparison "
+              "trailers, list / tuple / set / dict displays (incl. `**` entries), await / yield and the boolean, unary, binary, comparison "
               "and conditional operators, of any size, the reference parser reads the model's token output back as the "
               "same tree and rendering is a fixed point. The model and the reference parser are tied to the Rust code "
               "on every run by byte-exact correspondence on directed, random and CPython-stdlib expression streams "
@@ -433,6 +433,16 @@ def in_lexer_domain(src):
             return False
         if ord(c) < 32 and c != "\n":
             return False
+    return True
+
+
+def tree_in_domain(tree):
+    """every non-ASCII character of every string constant / identifier is one whose printability the driver knows
+    (escapes such as '\\377' in a str literal produce characters that do not occur in the source text)"""
+    for n in ast.walk(tree):
+        if isinstance(n, ast.Constant) and isinstance(n.value, str):
+            if any(ord(c) > 126 and c not in KNOWN_NONASCII and not 0xD800 <= ord(c) <= 0xDFFF for c in n.value):
+                return False
     return True
 
 
@@ -1233,7 +1243,7 @@ def random_sources(rng, n, consts, depth_choices=(1, 2, 2, 3, 3, 4)):
         if len(s) > 600 or not in_lexer_domain(s):
             continue
         t = py_tree(s)
-        if t is None or finding_shapes(t):
+        if t is None or finding_shapes(t) or not tree_in_domain(t):
             continue
         out.append(s)
     return out
@@ -1253,7 +1263,7 @@ def constant_sources(rng, nfloat):
     res = []
     for s in out:
         t = py_tree(s)
-        if t is not None and in_lexer_domain(s) and not finding_shapes(t):
+        if t is not None and in_lexer_domain(s) and not finding_shapes(t) and tree_in_domain(t):
             res.append(s)
     return res
 
@@ -1303,7 +1313,7 @@ def stdlib_expressions(limit_files, rng, per_file):
             if len(s) > 1500 or s in seen or not in_lexer_domain(s):
                 continue
             t = py_tree(s)
-            if t is None or finding_shapes(t):
+            if t is None or finding_shapes(t) or not tree_in_domain(t):
                 continue
             seen.add(s)
             out.append(s)
